@@ -66,3 +66,14 @@ HARNESSES.update({
     'k_smbios_clone_dyn': dict(MB2, file='smbios.rs', kind='bounded', bound='SMBIOS tables of 0..=9 symbolic bytes (every padding residue)',
         functions=['clone_dyn', 'new_boxed', 'SmbiosTag::new'], props=['C16']),
 })
+
+HARNESSES.update({
+    'k_tagiter_provided_methods': dict(crate='multiboot2-common', features=None, file='iter.rs', kind='bounded',
+        bound='40-byte buffer tiled by three tags of symbolic size; nth(0..=3), skip, count, last',
+        functions=['TagIter (Iterator provided methods vs next)'], props=['C03']),
+})
+
+HARNESSES.update({
+    'k_efi_iter_provided_methods': dict(MB2, file='memory_map.rs', kind='bounded', bound='descriptor size 40, 0..=3 descriptors, nth(0..=4), count, skip, last',
+        functions=['EFIMemoryAreaIter (Iterator provided methods vs next)'], props=['C18', 'C01']),
+})
